@@ -66,6 +66,8 @@ pub struct Game {
     /// frames below this index are sealed: later re-simulations must use identical values
     pub sealed: i32,
     pub perturb: Option<(i32, PerturbMode)>,
+    /// save `None` data into the cells and restore from this game's own record of its saves
+    pub own_snapshots: bool,
     nondet_ctr: u64,
     pub stats: GameStats,
     pub trace: Roll,
@@ -84,6 +86,7 @@ impl Game {
             checksums: BTreeMap::new(),
             sealed: 0,
             perturb: None,
+            own_snapshots: false,
             nondet_ctr: 0,
             stats: GameStats::default(),
             trace: Roll::default(),
@@ -142,11 +145,8 @@ impl Game {
                         );
                     }
                     self.serial += 1;
-                    cell.save(
-                        frame,
-                        Some(GState { frame: self.g, state: self.state, serial: self.serial }),
-                        Some(self.state as u128),
-                    );
+                    let data = if self.own_snapshots { None } else { Some(GState { frame: self.g, state: self.state, serial: self.serial }) };
+                    cell.save(frame, data, Some(self.state as u128));
                     self.saved.insert(frame, (self.state, self.serial));
                     self.checksums.entry(frame).or_default().push(self.state);
                     self.stats.saves += 1;
@@ -188,7 +188,16 @@ impl Game {
                             out,
                         );
                     }
-                    match cell.load() {
+                    let loaded = if self.own_snapshots {
+                        // the cell carries no data: restore from the frame number alone
+                        if cell.load().is_some() {
+                            self.viol(ctx, "c02.load_cell_frame", format!("cell offered for frame {frame} holds data this game never stored"), out);
+                        }
+                        self.saved.get(&frame).map(|&(st, ser)| GState { frame, state: st, serial: ser })
+                    } else {
+                        cell.load()
+                    };
+                    match loaded {
                         None => {
                             self.viol(ctx, "c02.load_empty", format!("cell for frame {frame} holds no state"), out);
                             continue;
